@@ -1069,7 +1069,7 @@ fn parse_expr(
 
                 let fallback_ty = fallback.for_type(&TypecheckFlags::use_class(user_data.get_type_of_executing_class())).details(value_span, &user_data.get_source_file_name(), format!("this value cannot be used as a fallback for `{lhs_ty}`")).to_err_vec()?;
 
-                let lhs_ty_for_comp = lhs_ty.disregard_optional().unwrap_or(&TypeLayout::Optional(None));
+                let lhs_ty_for_comp = lhs_ty.disregard_distractors(false).disregard_optional().unwrap_or(&TypeLayout::Optional(None));
 
                 log::debug!("`or` stmt: fallback:{fallback_ty:?} value:{lhs_ty_for_comp:?}");
 
